@@ -26,6 +26,7 @@ import (
 	"github.com/onflow/cadence/common"
 	"github.com/onflow/cadence/runtime"
 
+	"verifharness/health"
 	"verifharness/host"
 	"verifharness/util"
 )
@@ -62,21 +63,62 @@ type cBeh struct {
 }
 
 type refinement struct {
-	name string
-	E, K string // element type, key type
-	body string // enc/dec functions
+	name      string
+	E, K      string // element type, key type
+	container bool   // elements are containers: through a reference they are handed out as references
+	body      string // enc/dec functions
+	init      string // contract initializer (gets the table bound substituted for TABMAX)
 }
 
 var pad295 = strings.Repeat("x", 295)
 
-var refinements = map[string]refinement{
-	"int": {"int", "Int", "Int", `
+// key representations: "short" string keys ("k7") and "long" ones (300 characters: longer than
+// atree's maximum inline map key size, so every key lives in a slab of its own)
+const keyFuncsShort = `
+  access(all) let ktab: {String: Int}
+  access(all) view fun kenc(_ k: Int): String { return "k".concat(k.toString()) }
+  access(all) view fun kdec(_ k: String): Int { return self.ktab[k] ?? -999 }
+`
+const keyFuncsLong = `
+  access(all) let pad: String
+  access(all) let ktab: {String: Int}
+  access(all) view fun kenc(_ k: Int): String { return (10000 + k).toString().concat(self.pad) }
+  access(all) view fun kdec(_ k: String): Int { return self.ktab[k] ?? -999 }
+`
+const keyInit = `self.ktab = {}; var k = 0; while k <= TABMAX { self.ktab[self.kenc(k)] = k; k = k + 1 }; k = 500; while k <= 512 { self.ktab[self.kenc(k)] = k; k = k + 1 }`
+
+const intElems = `
   access(all) view fun enc(_ k: Int): Int { return k }
   access(all) view fun dec(_ e: Int): Int { return e }
+`
+
+// elements that are dictionaries {String: Int}: int k is {key(k): k, key(k+500): -7}
+const dictElems = `
+  access(all) view fun enc(_ k: Int): {String: Int} { return {self.kenc(k): k, self.kenc(k + 500): -7} }
+  access(all) view fun dec(_ e: {String: Int}): Int {
+    if e.length != 2 { return -999 }
+    var r = -999
+    for key in e.keys { let v = e[key]!; if v != -7 && (self.ktab[key] ?? -5) == v { r = v } }
+    if r < 0 || e[self.kenc(r + 500)] != -7 { return -999 }
+    return r
+  }
+`
+
+func containerFuncs(E string) string {
+	return strings.ReplaceAll(`
+  access(all) fun showOR(_ r: &ELEM?): String { if let x = r { return self.dec(*x).toString() }; return "nil" }
+  // functions called through a reference to a container of containers hand out containers of references
+  access(all) fun owned(_ a: [&ELEM]): [ELEM] { let r: [ELEM] = []; for e in a { r.append(*e) }; return r }
+  access(all) fun ownedC(_ a: [&ELEM; CN]): [ELEM; CN] { let r: [ELEM] = []; for e in a { r.append(*e) }; return r.toConstantSized<[ELEM; CN]>()! }
+`, "ELEM", E)
+}
+
+var refinements = map[string]refinement{
+	"int": {name: "int", E: "Int", K: "Int", body: intElems + `
   access(all) view fun kenc(_ k: Int): Int { return k }
   access(all) view fun kdec(_ k: Int): Int { return k }
 `},
-	"str": {"str", "String", "String", `
+	"str": {name: "str", E: "String", K: "String", body: `
   access(all) let pad: String
   access(all) let tab: {String: Int}
   // 5 digits, then 295 bytes of padding: 300 bytes, never stored inline
@@ -85,8 +127,8 @@ var refinements = map[string]refinement{
   access(all) view fun dec(_ e: String): Int { return self.tab[e] ?? -999 }
   access(all) view fun kenc(_ k: Int): String { return self.enc(k) }
   access(all) view fun kdec(_ k: String): Int { return self.dec(k) }
-`},
-	"nest": {"nest", "[Int]", "Int", `
+`, init: `self.pad = "` + pad295 + `"; self.tab = {}; var k = 0; while k <= TABMAX { self.tab[self.enc(k)] = k; k = k + 1 }`},
+	"nest": {name: "nest", E: "[Int]", K: "Int", container: true, body: `
   access(all) view fun enc(_ k: Int): [Int] { return [k, 2 * k + 1, 7] }
   access(all) view fun dec(_ e: [Int]): Int {
     if e.length != 3 || e[1] != 2 * e[0] + 1 || e[2] != 7 { return -999 }
@@ -94,11 +136,14 @@ var refinements = map[string]refinement{
   }
   access(all) view fun kenc(_ k: Int): Int { return k }
   access(all) view fun kdec(_ k: Int): Int { return k }
-  access(all) fun showOR(_ r: &[Int]?): String { if let x = r { return self.dec(*x).toString() }; return "nil" }
-  // functions called through a reference to an array of arrays hand out arrays of references
-  access(all) fun owned(_ a: [&[Int]]): [[Int]] { let r: [[Int]] = []; for e in a { r.append(*e) }; return r }
-  access(all) fun ownedC(_ a: [&[Int]; CN]): [[Int]; CN] { let r: [[Int]] = []; for e in a { r.append(*e) }; return r.toConstantSized<[[Int]; CN]>()! }
-`},
+` + containerFuncs("[Int]")},
+	// key representation parameter: Int elements under short / long string keys
+	"sk": {name: "sk", E: "Int", K: "String", body: intElems + keyFuncsShort, init: keyInit},
+	"lk": {name: "lk", E: "Int", K: "String", body: intElems + keyFuncsLong, init: `self.pad = "` + pad295 + `"; ` + keyInit},
+	// dictionaries nested in the array / dictionary / constant-sized array, with short / long keys inside and outside
+	"dnS": {name: "dnS", E: "{String: Int}", K: "String", container: true, body: keyFuncsShort + dictElems + containerFuncs("{String: Int}"), init: keyInit},
+	"dnL": {name: "dnL", E: "{String: Int}", K: "String", container: true, body: keyFuncsLong + dictElems + containerFuncs("{String: Int}"),
+		init: `self.pad = "` + pad295 + `"; ` + keyInit},
 }
 
 func c20Contract(r refinement, cn int, deep bool) string {
@@ -106,10 +151,7 @@ func c20Contract(r refinement, cn int, deep bool) string {
 	if deep {
 		tabMax = 800
 	}
-	init := ""
-	if r.name == "str" {
-		init = "self.pad = \"" + pad295 + "\"; self.tab = {}; var k = 0; while k <= " + strconv.Itoa(tabMax) + " { self.tab[self.enc(k)] = k; k = k + 1 }"
-	}
+	init := strings.ReplaceAll(r.init, "TABMAX", strconv.Itoa(tabMax))
 	s := `access(all) contract T {` + r.body + `
   access(all) fun show(_ a: [E]): String { var s = ""; for e in a { s = s.concat(self.dec(e).toString()).concat(",") }; return s }
   access(all) fun showC(_ a: [E; CN]): String { var s = ""; for e in a { s = s.concat(self.dec(e).toString()).concat(",") }; return s }
@@ -145,7 +187,7 @@ func (c *c20ctx) viaRef(tg string) bool { return c.mode == "ref" && c.stored(tg)
 
 // elem turns an element expression read out of container tg into a value expression.
 func (c *c20ctx) elem(tg, expr string) string {
-	if c.viaRef(tg) && c.r.name == "nest" {
+	if c.viaRef(tg) && c.r.container {
 		return "*" + expr
 	}
 	return expr
@@ -153,7 +195,7 @@ func (c *c20ctx) elem(tg, expr string) string {
 
 // refElems: calls on tg go through a reference to a container of containers, so callbacks receive and
 // array-returning functions hand out references to the elements.
-func (c *c20ctx) refElems(tg string) bool { return c.viaRef(tg) && c.r.name == "nest" }
+func (c *c20ctx) refElems(tg string) bool { return c.viaRef(tg) && c.r.container }
 
 // owned turns the array returned by a function called on tg into an array of values.
 func (c *c20ctx) owned(tg, expr string) string {
@@ -312,7 +354,7 @@ func (c *c20ctx) renderOp(i int, s cStep) string {
 	case "dremove":
 		return fmt.Sprintf("log(T.showO(%s.remove(key: %s)))", tg, key)
 	case "dget":
-		if c.viaRef(tg) && c.r.name == "nest" {
+		if c.viaRef(tg) && c.r.container {
 			return fmt.Sprintf("log(T.showOR(%s[%s]))", tg, key)
 		}
 		return fmt.Sprintf("log(T.showO(%s[%s]))", tg, key)
@@ -349,6 +391,16 @@ func (c *c20ctx) renderOp(i int, s cStep) string {
 	case "dbulkRemove":
 		return fmt.Sprintf("var b%[1]d = %[2]d; while b%[1]d <= %[3]d { %[4]s.remove(key: T.kenc(b%[1]d)); b%[1]d = b%[1]d + 1 }; log(%[4]s.length.toString())",
 			i, s.I+1, s.I+s.N, tg)
+	case "amove", "dmove":
+		// move the stored container to the other account and back (a transfer with removal each way)
+		name, ty := "s", fmt.Sprintf("[%s]", E)
+		if s.Op == "dmove" {
+			name, ty = "d", fmt.Sprintf("{%s: %s}", K, E)
+		}
+		if c.mode == "lms" {
+			return fmt.Sprintf("other.storage.save(%[1]s, to: /storage/parked); %[1]s = other.storage.load<%[2]s>(from: /storage/parked)!; log(%[1]s.length.toString())", name, ty)
+		}
+		return fmt.Sprintf("other.storage.save(acct.storage.load<%[2]s>(from: /storage/%[1]s)!, to: /storage/parked); acct.storage.save(other.storage.load<%[2]s>(from: /storage/parked)!, to: /storage/%[1]s); log(%[1]s.length.toString())", name, ty)
 	case "abort":
 		return "panic(\"abort\")"
 	}
@@ -358,7 +410,7 @@ func (c *c20ctx) renderOp(i int, s cStep) string {
 func (c *c20ctx) renderTx(steps []cStep, commit bool) string {
 	E, K := c.r.E, c.r.K
 	var sb strings.Builder
-	sb.WriteString("import T from 0x1\ntransaction {\n  prepare(acct: auth(Storage) &Account) {\n")
+	sb.WriteString("import T from 0x1\ntransaction {\n  prepare(acct: auth(Storage) &Account, other: auth(Storage) &Account) {\n")
 	if c.mode == "ref" {
 		fmt.Fprintf(&sb, "    let s = acct.storage.borrow<auth(Mutate) &[%s]>(from: /storage/s)!\n", E)
 		fmt.Fprintf(&sb, "    let d = acct.storage.borrow<auth(Mutate) &{%s: %s}>(from: /storage/d)!\n", K, E)
@@ -498,7 +550,7 @@ func c20Expect(s cStep) (expectation, error) {
 		return expectation{}, fmt.Errorf("unexpected string result %q", str)
 	}
 	switch s.Op {
-	case "append", "appendAll", "insert", "set", "length", "cset", "dset", "dsetnil", "dlength", "bulk", "trunc", "behead",
+	case "append", "appendAll", "insert", "set", "length", "cset", "dset", "dsetnil", "dlength", "bulk", "trunc", "behead", "amove", "dmove",
 		"dbulk", "dbulkRemove", "remove", "removeFirst", "removeLast", "get", "cget":
 		var n int
 		if err := json.Unmarshal(s.Res, &n); err != nil {
@@ -626,12 +678,15 @@ func c20Replay(b *cBeh, r refinement, engine string) *Fail {
 	harness := func(f *Fail) *Fail { f.Harness = true; return f }
 	// atree validation after every mutation is quadratic on the bulk-filled containers of the deep
 	// histories: there it is on for every eighth history; it is always on for the transition cover
-	w := host.NewWorldWithConfig(runtime.Config{AtreeValidationEnabled: !b.Deep || b.ID%8 == 0})
+	// VERIF_HEALTH=1 (C23): the runtime's own validation is off and the storage-health monitor runs on the
+	// committed ledger after every committed transaction.
+	checkHealth := os.Getenv("VERIF_HEALTH") == "1"
+	w := host.NewWorldWithConfig(runtime.Config{AtreeValidationEnabled: !checkHealth && (!b.Deep || b.ID%8 == 0)})
 	if err := w.Deploy(host.Addr(1), "T", c20Contract(r, b.CN, b.Deep)); err != nil {
 		return harness(mk("deploy", 0, "", err.Error(), c20Contract(r, b.CN, b.Deep)))
 	}
-	signers := []common.Address{host.Addr(2)}
-	if res := w.Tx(c.setupTx(), signers, useVM); res.Err != nil {
+	signers := []common.Address{host.Addr(2), host.Addr(3)}
+	if res := w.Tx(c.setupTx(), signers[:1], useVM); res.Err != nil {
 		return harness(mk("setup", 0, "", res.Err.Error(), c.setupTx()))
 	}
 	proj := ""
@@ -722,6 +777,12 @@ func c20Replay(b *cBeh, r refinement, engine string) *Fail {
 				return mk("write-on-failure", si, s.Op, fmt.Sprintf("failed transaction wrote %d registers", len(res.Writes)), src)
 			}
 		}
+		if checkHealth && res.Err == nil {
+			atomic.AddInt64(&healthChecks, 1)
+			if err := health.Check(w); err != nil {
+				return mk("health", si, lastMutator(cur), "committed storage is not healthy after the transaction: "+err.Error(), src)
+			}
+		}
 		// full contents after the transaction, re-read from the ledger by a script
 		if s.Com == nil {
 			return harness(mk("nocom", si, s.Op, "step ending a transaction carries no predicted contents", ""))
@@ -763,6 +824,22 @@ func c20Replay(b *cBeh, r refinement, engine string) *Fail {
 func isCheckerError(err error) bool {
 	var pce *runtime.ParsingCheckingError
 	return err != nil && errors.As(err, &pce)
+}
+
+var healthChecks int64
+
+// lastMutator names the calls of the transaction (for the signature of a health failure).
+func lastMutator(steps []cStep) string {
+	seen := map[string]bool{}
+	var ops []string
+	for _, s := range steps {
+		if !seen[s.Op] {
+			seen[s.Op] = true
+			ops = append(ops, s.Op)
+		}
+	}
+	sort.Strings(ops)
+	return strings.Join(ops, "+")
 }
 
 func clip(s string) string {
@@ -817,6 +894,5 @@ func mainC20(in, outPath string) {
 		atomic.AddInt64(&nsteps, int64(len(j.b.Steps)))
 	})
 	out.Write(map[string]any{"summary": true, "behaviours": len(behs), "replays": len(jobs), "engines": len(engines), "refinements": len(refs),
-		"transactions": ntx, "steps": nsteps, "failures": nfail})
-	_ = os.Stdout
+		"transactions": ntx, "steps": nsteps, "failures": nfail, "health_checks": healthChecks})
 }
